@@ -17,7 +17,9 @@ CONSTANTS NO, NX          \* numbers of O- and X-points in the searched interior
 
 OPts == 1..NO             \* O-point o has distance rank o (1 = nearest the centre of the domain)
 XPts == 1..NX             \* X-point k is the k-th nearest to the axis in psi
-Flags == [mono : BOOLEAN, inwall : BOOLEAN, insol : BOOLEAN, below : BOOLEAN]
+Flags == [mono : BOOLEAN, inwall : BOOLEAN, insol : BOOLEAN, below : BOOLEAN, open : BOOLEAN]
+\* (`open': both divertor legs of the X-point reach the wall; when the separatrix closes on itself inside the wall - around a second
+\*  O-point - the legs cannot be traced and generation is refused)
 
 VARIABLES xf,             \* xf[k] \in Flags
           rawO, rawX,     \* detections in scan order (with duplicates)
@@ -60,7 +62,7 @@ Order == /\ stage = "dedup"
 Select == /\ stage = "ordered"
           /\ LET k == SelectSeq(xl, LAMBDA j : xf[j].insol /\ xf[j].inwall) IN
              /\ kept' = k
-             /\ verdict' = IF Len(k) = 0 \/ Len(k) > 2 THEN "refused"
+             /\ verdict' = IF Len(k) = 0 \/ Len(k) > 2 \/ (\E j \in 1..Len(k) : ~xf[k[j]].open) THEN "refused"
                            ELSE IF Len(k) = 1 THEN (IF xf[k[1]].below THEN "LSN" ELSE "USN")
                            ELSE IF xf[k[1]].below THEN "LDN" ELSE "UDN"
           /\ stage' = "selected" /\ UNCHANGED <<xf, rawO, rawX, ol, xl>>
@@ -85,7 +87,7 @@ EligibleOf(X, F) == {k \in X : F[k].mono /\ F[k].insol /\ F[k].inwall}
 KindOf(X, F) == LET E == EligibleOf(X, F)
                     n == Cardinality(E)
                     first == CHOOSE k \in E : \A j \in E : k <= j IN
-                IF n = 0 \/ n > 2 THEN "refused"
+                IF n = 0 \/ n > 2 \/ (\E k \in E : ~F[k].open) THEN "refused"
                 ELSE IF n = 1 THEN (IF F[first].below THEN "LSN" ELSE "USN")
                 ELSE IF F[first].below THEN "LDN" ELSE "UDN"
 Eligible == EligibleOf(XPts, xf)
